@@ -46,10 +46,14 @@ def drive(mod: str, fn: str, scns: List[Any], procs: int = 16) -> List[Any]:
         return []
     if REPO not in sys.path:
         sys.path.insert(0, REPO)
-    ctx = mp.get_context("fork")
-    n = min(procs, max(1, len(scns) // 20 + 1))
-    with ctx.Pool(n, initializer=_init_worker) as pool:
-        res = pool.map(_call, [(mod, fn, s) for s in scns], chunksize=max(1, len(scns) // (n * 8)))
+    if os.environ.get("VERIF_INLINE") == "1":      # coverage measurement (tools/coverage_report.sh): no worker processes
+        _init_worker()
+        res = [_call((mod, fn, s)) for s in scns]
+    else:
+        ctx = mp.get_context("fork")
+        n = min(procs, max(1, len(scns) // 20 + 1))
+        with ctx.Pool(n, initializer=_init_worker) as pool:
+            res = pool.map(_call, [(mod, fn, s) for s in scns], chunksize=max(1, len(scns) // (n * 8)))
     for r, s in zip(res, scns):
         if isinstance(r, dict) and "__error__" in r:
             raise RuntimeError("driver failed on scenario %s:\n%s" % (json.dumps(s, default=str)[:600], r["__error__"]))
